@@ -87,6 +87,10 @@ D_PS_INFERRED = ('ParameterSection.from_python_object rejects the inferred name 
                  'that to_python_object produced')
 D_PS_ERR = 'ParameterSection.from_python_object rejects the object produced by to_python_object'
 D_PS_DIFF = 'parameter -> Python object -> parameter changes the value'
+D_CALL_ERR = 'ContractEntrypoint call proxy ep(obj) raises on the object that decode produced'
+D_CALL_DIFF = 'ContractEntrypoint call proxy ep(obj) builds a parameter that does not denote the decoded value'
+D_ORDER = ('from_python_object depends on the insertion order of a dict: an equal Python object (entries listed in the opposite '
+           'order) converts to a different value or is rejected')
 D_HISTORY = ('the Python object of a value depends on which other types were converted earlier in the same process '
              '(two processes converting one shard in opposite orders disagree)')
 D_DRIFT = 'the Python object of a value changes when its type is built and the value converted again later in the same process'
@@ -350,6 +354,91 @@ def l_types(spec):
                             [Pair(I(1), Some(v)) for v in vals[:2]] + [Pair(I(1), NONE)]
 
 
+# ------------------------------------------------------------------------------------------------ family K (collection keys)
+TZ2 = 'tz28YZoayJjVz2bRgGeVjxE8NonMiJ3r2Wdu'
+KT1 = 'KT1BEqzn5Wx8uJrZNvuS9DVHmLvG9td3fDLi'
+
+
+def _xy(*annots):
+    return ty('pair', ty('int', annots=['%x']), ty('int', annots=['%y']), annots=list(annots) or None)
+
+
+_XY_VALS = [Pair(I(-1), I(5)), Pair(I(0), I(0)), Pair(I(0), I(1))]
+
+# comparable component types, each with values in ASCENDING MICHELSON ORDER (so products of them are ascending pair keys and no
+# reference ordering is needed).  The Python objects of several rows order differently in Python than the values do in
+# Michelson (addresses of mixed kinds, union branch names, None against numbers), others are unhashable unless rendered in
+# their comparable form (named sub-pairs, unions, options of them).
+KEYS = [
+    (ty('nat'), [I(0), I(1)]),
+    (ty('int'), [I(-10), I(-9), I(3)]),
+    (ty('string'), [Str(''), Str('B'), Str('a')]),
+    (ty('bytes'), [{'bytes': ''}, {'bytes': '00'}, {'bytes': 'ff'}]),
+    (ty('bool'), [{'prim': 'False'}, {'prim': 'True'}]),
+    (ty('address'), [Str(TZ1), Str(TZ2), Str(KT1)]),                      # implicit (by curve) before originated; 'K' < 't' as text
+    (ty('option', ty('nat')), [NONE, Some(I(0)), Some(I(2))]),
+    (ty('or', ty('nat', annots=['%z']), ty('string', annots=['%b'])), [Left(I(0)), Left(I(1)), Right(Str('a'))]),
+    (ty('or', ty('unit', annots=['%tez']), ty('address', annots=['%fa'])), [Left(UNIT), Right(Str(TZ1)), Right(Str(KT1))]),
+    (ty('pair', ty('nat'), ty('string')), [Pair(I(1), Str('a')), Pair(I(1), Str('b')), Pair(I(2), Str('a'))]),   # flattened into the key
+    (_xy('%pos'), _XY_VALS),                                               # field-named sub-pair with named fields
+    (_xy(':pos'), _XY_VALS),                                               # type-named sub-pair with named fields
+    (ty('option', _xy()), [NONE, Some(Pair(I(0), I(0))), Some(Pair(I(2), I(3)))]),
+]
+
+
+def k_key_types(comps, named):
+    """Right comb of the components as one key type + its ascending values."""
+    nodes = []
+    for n, i in enumerate(comps):
+        t = KEYS[i][0]
+        ann = list(t.get('annots') or [])
+        if named and len(comps) > 1 and not any(a.startswith('%') for a in ann):
+            ann.append('%' + 'pqr'[n])
+        nodes.append(annotated(t, *ann))
+    vals = [KEYS[i][1] for i in comps]
+
+    def go(ns, vs):
+        if len(ns) == 1:
+            return ns[0], vs[0]
+        rt, rv = go(ns[1:], vs[1:])
+        return ty('pair', ns[0], rt), [Pair(a, b) for a in vs[0] for b in rv]
+
+    return go(nodes, vals)
+
+
+def k_containers(kt, keys):
+    """map / set / big_map literal with the key type: all keys, none, the greatest one alone, the two extremes."""
+    subsets = [keys, [], keys[-1:]] + ([[keys[0], keys[-1]]] if len(keys) > 2 else [])
+    yield ty('map', kt, ty('int')), [[Elt(k, I(n)) for n, k in enumerate(ks)] for ks in subsets]
+    yield ty('set', kt), [list(ks) for ks in subsets]
+    yield ty('big_map', kt, ty('string')), [[Elt(k, Str('v')) for k in ks] for ks in subsets[:3] if ks] + [[]]
+
+
+def k_shards(tier):
+    out = [('K', 2, i) for i in range(len(KEYS))]
+    if tier == 'thorough':
+        out += [('K', 3, i, j) for i in range(len(KEYS)) for j in range(len(KEYS))]
+    return out
+
+
+def k_types(spec):
+    if spec[1] == 2:
+        i = spec[2]
+        yield from k_containers(*k_key_types([i], False))
+        # a record holding the collection: the key conversion is reached through the named field
+        kt, keys = k_key_types([i], False)
+        yield ty('pair', ty('map', kt, ty('int'), annots=['%m']), ty('set', kt, annots=['%s'])), \
+            [Pair([Elt(k, I(0)) for k in keys], list(keys)), Pair([], [])]
+        for j in range(len(KEYS)):
+            for named in (False, True):
+                yield from k_containers(*k_key_types([i, j], named))
+    else:
+        i, j = spec[2], spec[3]
+        for k in range(len(KEYS)):
+            kt, keys = k_key_types([i, j, k], False)
+            yield from k_containers(kt, keys[:2] + keys[len(keys) // 2:len(keys) // 2 + 1] + keys[-2:])
+
+
 def _has_big_map(t):
     return t.get('prim') == 'big_map' or any(_has_big_map(a) for a in t.get('args', []) if isinstance(a, dict))
 
@@ -413,6 +502,26 @@ def obj_profile(o, depth=0):
     return inferred, nested, label
 
 
+def reversed_dicts(o):
+    """A copy of the object that is == to it, every dict with >= 2 entries listed back to front; None if there is no such dict."""
+    changed = False
+
+    def go(x):
+        nonlocal changed
+        if isinstance(x, dict):
+            items = [(k, go(v)) for k, v in x.items()]
+            if len(items) > 1:
+                changed = True
+                items.reverse()
+            return dict(items)
+        if isinstance(x, (list, tuple)):
+            return type(x)(go(v) for v in x)
+        return x
+
+    r = go(o)
+    return r if changed else None
+
+
 def classify(T, t, value, default):
     if shared_names(T):
         return D_COLL
@@ -452,6 +561,18 @@ def check_value(T, t, value, cd=None, second_build=True):
     except Exception as e:
         out.append((classify(T, t, value, D_BACK_ERR), f'type={t} value={value} object={o!r} {err(e)}'))
         label += ' back:raises'
+    # an EQUAL object: every dict inside it with its entries in the opposite insertion order
+    o_rev = reversed_dicts(o)
+    if o_rev is not None:
+        try:
+            back = mich(T.from_python_object(o_rev))
+            if back != m and not out:
+                out.append((classify(T, t, value, D_ORDER), f'type={t} value={value} object={o_rev!r} back={back}'))
+                label += ' reordered:differs'
+        except Exception as e:
+            if not out:
+                out.append((classify(T, t, value, D_ORDER), f'type={t} value={value} object={o_rev!r} {err(e)}'))
+                label += ' reordered:raises'
     # stability: a second build of the same type expression names the fields identically (inside a shard this is the job of
     # judge_drift, which builds the type again after the whole shard)
     if second_build:
@@ -544,11 +665,16 @@ def _or_skeleton(t):
 
 # ------------------------------------------------------------------------------------------------ family E
 E_LEAVES = [
-    (ty('int'), [I(5)]),
-    (ty('pair', ty('int', annots=['%x']), ty('string')), [Pair(I(1), Str('s'))]),
+    (ty('int'), [I(5), I(0)]),                                             # a truthy and a FALSY whole argument
+    (ty('pair', ty('int', annots=['%x']), ty('string')), [Pair(I(1), Str('s')), Pair(I(0), Str(''))]),
     (ty('unit'), [UNIT]),
     (ty('option', ty('string')), [NONE, Some(Str('s')), Some(Str(''))]),   # absent, present, present with an empty payload
+    (ty('bool'), [{'prim': 'False'}, {'prim': 'True'}]),
+    (ty('list', ty('string')), [[], [Str('a')]]),
+    (ty('map', ty('string'), ty('nat')), [[], [Elt(Str('k'), I(0))]]),
+    (ty('string'), [Str(''), Str('s')]),
 ]
+E_ROTATIONS = (0, 3, 6)      # leaf i of a tree has type E_LEAVES[(first + i) % 8]: every leaf type comes first in some rotation or n>=2
 E_NAMES = [None, 'a', 'b']
 
 
@@ -605,7 +731,8 @@ def e_types(spec):
         if n >= 2 and annots[0] is None:
             yield e_build(shape, annots, all_unit=True)
         if annots[0] is None:
-            yield e_build(shape, annots, first=3)      # leaf types rotated: the option leaf comes first
+            for first in E_ROTATIONS[1:]:               # leaf types rotated: option / bool / list first, then map / string / int
+                yield e_build(shape, annots, first=first)
 
 
 def e_setup(t):
@@ -666,6 +793,7 @@ def check_call(t, e, a):
     # (b) encode the decoded object again: through the root entrypoint (union roots: the object IS the root's object) and
     #     through the entrypoint the object names, when that one is listed
     routes = []
+    ncalls = 0
     if t.get('prim') == 'or':
         routes.append((P.root_name, d))
     if isinstance(d, dict) and len(d) == 1:
@@ -692,8 +820,43 @@ def check_call(t, e, a):
                     out.append((D_CE_DEC, f'type={t} decoded={d!r} encode via `{k}` -> {p2} decodes to {d2!r}'))
             except Exception as ex:
                 out.append((D_CE_ERR, f'type={t} decoded={d!r} encode via `{k}` -> {p2}: {err(ex)}'))
-    label += f' routes:{len(routes)}'
+        else:
+            # (c) the call proxy ep(...) is the documented way to encode: every call form that denotes the object `o`
+            forms = call_forms(o)
+            for form, make in forms:
+                try:
+                    p3 = make(CE(k)).parameters
+                except Exception as ex:
+                    out.append((D_CALL_ERR, f'type={t} decoded={d!r}; `{k}` called as {form} with obj={o!r}: {err(ex)}'))
+                    label += ' call:raises'
+                    continue
+                try:
+                    again = P.from_parameters(p3).to_micheline_value(mode='readable')
+                    if again != full:
+                        out.append((D_CALL_DIFF, f'type={t} full={full} decoded={d!r}; `{k}` called as {form} with obj={o!r} -> {p3} = {again}'))
+                        label += ' call:differs'
+                except Exception as ex:
+                    out.append((D_CALL_ERR, f'type={t} decoded={d!r}; `{k}` called as {form} with obj={o!r} -> {p3}: {err(ex)}'))
+            ncalls += len(forms)
+    label += f' routes:{len(routes)} callforms:{ncalls}{"+falsy" if any(falsy(o) for _, o in routes) else ""}'
     return out, label, d
+
+
+def falsy(o):
+    return o is not None and not o
+
+
+def call_forms(o):
+    """The ways of calling an entrypoint proxy that pass the Python object `o` (ContractEntrypoint.__call__: one positional
+    argument as is, several as a tuple, keyword arguments as a dict, none as None)."""
+    forms = [('ep(obj)', lambda ep: ep(o))]
+    if isinstance(o, tuple) and len(o) > 1:
+        forms.append(('ep(*obj)', lambda ep: ep(*o)))
+    if isinstance(o, dict) and o and all(isinstance(x, str) and x.isidentifier() for x in o):
+        forms.append(('ep(**obj)', lambda ep: ep(**o)))
+    if o is None:
+        forms.append(('ep()', lambda ep: ep()))
+    return forms
 
 
 def run_param_type(r, t, calls):
@@ -853,7 +1016,7 @@ def shard_items(spec):
             except Exception:
                 out.append((t, []))
         return 'E', out
-    return spec[0], list(s_types(spec) if spec[0] == 'S' else l_types(spec))
+    return spec[0], list(s_types(spec) if spec[0] == 'S' else k_types(spec) if spec[0] == 'K' else l_types(spec))
 
 
 def judge_history(r, spec, fam, i, item, fwd, rev, len_after):
@@ -911,7 +1074,7 @@ def replay_history(case):
 
 # ------------------------------------------------------------------------------------------------ driver interface
 def shards(tier, seed):
-    return s_shards(tier) + l_shards(tier) + e_shards(tier)
+    return s_shards(tier) + l_shards(tier) + k_shards(tier) + e_shards(tier)
 
 
 def run_shard(spec, tier):
